@@ -585,6 +585,50 @@ func checkC11(e *Env, r *Report) {
 			recs = append(recs, map[string]any{"ev": "sort", "id": "sort:" + k + ":" + strings.Join(ids, " | "), "results": results, "resorted": resorted})
 		}
 	}
+	// sub-profiles (built as structs: name, attachments, xattrs map, flags): comparing twice must give the
+	// same sign (a map is walked in random order), a profile equals itself
+	{
+		profs := []*aa.Profile{}
+		for _, name := range []string{"suba", "subb"} {
+			for _, att := range [][]string{nil, {"/usr/bin/x"}} {
+				for _, xa := range []map[string]string{nil, {"security.tag": "x"}, {"security.tag": "x", "user.kind": "y"}, {"security.tag": "x", "user.kind": "z", "user.more": "w"}} {
+					for _, fl := range [][]string{nil, {"complain"}} {
+						profs = append(profs, &aa.Profile{Header: aa.Header{Name: name, Attachments: att, Attributes: xa, Flags: fl}})
+					}
+				}
+			}
+		}
+		n := len(profs)
+		m := make([][]int, n)
+		same := make([][]bool, n)
+		texts := make([]string, n)
+		unstable := false
+		for i := 0; i < n; i++ {
+			m[i] = make([]int, n)
+			same[i] = make([]bool, n)
+		}
+		flipped := map[[2]int]bool{}
+		for i := 0; i < n; i++ {
+			hb, _ := json.Marshal(profs[i].Header)
+			texts[i] = string(hb)
+			for j := 0; j < n; j++ {
+				m[i][j] = sgn(profs[i].Compare(profs[j]))
+				for k := 0; k < 6; k++ {
+					if sgn(profs[i].Compare(profs[j])) != m[i][j] {
+						unstable = true
+						flipped[[2]int{i, j}] = true
+					}
+				}
+				// two sub-profiles of one name and attachment are the same profile (xattrs and flags describe it)
+				same[i][j] = profs[i].Name == profs[j].Name && reflect.DeepEqual(profs[i].Attachments, profs[j].Attachments)
+			}
+		}
+		_ = unstable
+		for p := range flipped { // a comparison whose sign changes from call to call: recorded as an antisymmetry failure
+			m[p[0]][p[1]], m[p[1]][p[0]] = 1, 1
+		}
+		recs = append(recs, map[string]any{"ev": "cmp", "id": "cmp:profile", "kind": "profile", "texts": texts, "m": m, "same": same})
+	}
 	// mixed kinds: the kind order used by Rules.Sort
 	mixed := []string{"include <abstractions/base>", "include <abstractions/z>", "include if exists <abstractions/a>", "include if exists <local/x>", "/a r,", "@{bin}/b rix,", "capability chown,", "network inet stream,", "signal send peer=p,", "dbus bind bus=session name=n,", "userns,", "all,", "link /a -> /b,", "ptrace read peer=p,", "unix send type=stream,", "mount /a -> /b,"}
 	nMixed := 25
